@@ -583,6 +583,13 @@ func (s *state) visitForRange(node *ast.ForNode) {
 	s.walk(node.Body)
 	s.indentLevels--
 	s.jsln("}")
+	if node.IfEmpty != nil {
+		s.jsln("if (", varCount, " == 0) {")
+		s.indentLevels++
+		s.walk(node.IfEmpty)
+		s.indentLevels--
+		s.jsln("}")
+	}
 }
 
 func (s *state) visitForeach(node *ast.ForNode) {
